@@ -245,7 +245,7 @@ func TestC05(t *testing.T) {
 	curProp = "C05"
 	r := vf.NewRec("C05")
 	defer r.Finish(t)
-	guard.StartWatchdog(*vf.Out, "C05")
+	guard.StartWatchdog(*vf.Out, vf.Label("C05"))
 
 	replayFrameCases(t, r, func(entry string, frame []byte) (bool, string, string) {
 		if strings.HasPrefix(entry, "scaling:") {
